@@ -27,14 +27,16 @@ def rename_class(name: str, *, private: bool) -> str:
     if len(name) == 0:
         raise ValueError("Cannot rename empty name")
 
+    original_name = name
     name = _make_camelcase(name)
 
     if private and not parsing.is_private(name):
-        return f"_{name}"
-    if not private and parsing.is_private(name):
-        return name[1:]
+        name = f"_{name}"
+    elif not private and parsing.is_private(name):
+        name = name[1:]
 
-    return name
+    # Without its underscore, a name like _1st is not a name
+    return name if name.isidentifier() else original_name
 
 
 def rename_variable(variable: str, *, static: bool, private: bool) -> str:
@@ -51,7 +53,10 @@ def rename_variable(variable: str, *, static: bool, private: bool) -> str:
     if not private and parsing.is_private(renamed_variable):
         renamed_variable = renamed_variable.lstrip("_")
 
-    if renamed_variable:
+    if renamed_variable.isidentifier():
         return renamed_variable
+
+    if renamed_variable:
+        return variable  # Without its underscore, a name like _1st is not a name
 
     raise RuntimeError(f"Unable to find a replacement name for {variable}")
